@@ -29,8 +29,10 @@ def list_of_nothing(finding, replay, facts):
     return False
   if 'List' not in replay.get('program', ''):
     return False
-  return _cells_differ_only_by(real_rows, exp,
-                               lambda a, b: (a == [] or a == ()) and b is None)
+  has_size = 'Size(' in replay.get('program', '')
+  return _cells_differ_only_by(
+      real_rows, exp,
+      lambda a, b: b is None and (a == [] or a == () or (has_size and a == 0)))
 
 
 MATCHERS = {
